@@ -53,6 +53,11 @@ BUILT = {
    'TLC evaluates the resolver with a root ([lexical, real] pair, os.Root rules: no escape through .., absolute links or links leaving the root) on the MC_Files C18 layouts and asserts Confined (every content read inside the root), EscapesFail and NonInterference (the run on the file system with everything outside the root removed gives the same result); each layout is run through the real binary under strace -f -y (content reads of any path outside the root are violations) and twice more with the outside files rewritten / deleted. Random layouts (11 $parent values, 9 link targets, 6 directory links, 10 inputs, 4 root spellings) are run the same way and validated by TLC, including the set of files read; library runs exercise nested SetRoot calls, also through directory links.',
    'Trusts strace to show every content read (read/pread/readv/mmap with resolved paths). Existence probes (stat, glob) outside the root are not content reads. go1.24.0 os.Root panics on OpenRoot("..") (stdlib defect, recovered by the harness and counted as a failed call).',
    'TLA+ resolver machine with root confinement + TLC bounded model with replay under strace + non-interference reruns + TLC trace validation', '6 C18'),
+
+ 'C08': ('model_checking',
+   'The termination protocol of a tool invocation is a two-state machine in the specification (BklCli!ProtocolOK: exit 0, or non-zero exit with empty stdout and a diagnostic on stderr; a panic, signal, timeout or partial output is not a state). TLC (a) evaluates all 17^3 reference graphs on three subtrees (every reference form, cycles included), asserts StrictCycleIsError and AcyclicNeverReportsCycle, and every graph is evaluated through the real CLI and compared; (b) validates the protocol on every process recorded by the drivers: the repository\'s fuzz corpus and fixtures pushed through the whole pipeline, generated directive-laden documents with type-confused arguments in three formats plus byte mutations, raw byte strings as JSON/TOML, and all 64 $parent graphs on three files - each through bkl (three output formats), bklr, bkld and bkli under a timeout.',
+   'For raw byte strings the specification only enforces the protocol (it cannot say whether bytes are valid TOML). A timeout is confirmed by a second, solitary run with four times the budget before it counts. YAML is not offered raw bytes (the property excludes it; upstream yaml.v3 issue). One listed known finding (c08-branching-cycle).',
+   'TLA+ protocol machine + reference-graph universe (MC_Eval C08) replayed through the CLI + TLC trace validation of recorded processes (exploration for raw inputs)', '6 C08'),
 }
 PENDING = 'check not built yet (work in progress; DESIGN.md section 6 describes the planned decision procedure)'
 
